@@ -536,6 +536,7 @@ class InfoScreen(ModalScreen[None]):
         if node:
             self._state.jump_to(node)
             self.app.pop_screen()
+            self.app._refresh_menu()  # type: ignore[attr-defined]
 
 
 class JumpToScreen(Screen[Optional["MenuNode"]]):
